@@ -631,7 +631,7 @@ class SeriesOps:
             if isinstance(a0, dict):
                 return dict(a0)
             if isinstance(a0, tuple) and a0 and a0[0] == "zip":
-                return ("dictzip",) + tuple(a0[1])
+                return ("dictzip",) + tuple(x[1] if isinstance(x, tuple) and len(x) == 3 and x[0] == "tolist" else x for x in a0[1])
             if conc is not None and all(isinstance(x, PyTuple) and len(x.items) == 2 for x in conc):
                 return {I._hashable(x.items[0]): x.items[1] for x in conc}          # dict(iterable of (key, value) pairs)
             return ("dict", to_term(a0))
